@@ -254,7 +254,7 @@ Proof.
     + unfold inv. cbn [r_off r_cur r_rest flat concat app]. split; [lia|].
       symmetry. apply dropZ_all. rewrite len_dropZ.
       pose proof (len_nonneg (flatten t)). lia.
-    + cbn [ob_match]. rewrite zlist_eqb_refl. reflexivity.
+    + cbn [ob_match]. rewrite zlist_eqb_refl. rewrite <- len_app, Hi, Z.eqb_refl. reflexivity.
 Qed.
 
 Lemma run_sim t : consistent t = true -> forall ops r s,
@@ -285,7 +285,7 @@ Qed.
     WriteTo delivers nothing, and the position stays *)
 Lemma seek_past_end t off n : consistent t = true -> len (flatten t) <= off -> 0 < n ->
   snd (run t (len (flatten t)) (rd_init t) [OSeek off 0; ORead n; OWriteTo; OSeek 0 1])
-  = [BSeek off true; BRead [] EEOF; BWrite [] ENone; BSeek off true].
+  = [BSeek off true; BRead [] EEOF; BWrite [] 0 ENone; BSeek off true].
 Proof.
   intros Hc Hoff Hn. pose proof (len_nonneg (flatten t)) as L.
   pose proof (inv_init t) as Hinv0.
@@ -297,7 +297,7 @@ Proof.
   destruct (read r1 n) as [[r2 d] e]. destruct HR as (Hi2 & Hd & Ho & He & _).
   rewrite Hk3 in Hd. rewrite (dropZ_all off) in Hd by lia. rewrite takeZ_none_nil in Hd. subst d.
   specialize (He Hn). rewrite len_nil in He, Ho. destruct (0 <? n) eqn:E1; [|lia]. subst e.
-  unfold write_to. destruct Hi2 as [Ho2 Hi2]. rewrite Hi2.
+  unfold write_to. destruct Hi2 as [Ho2 Hi2]. rewrite <- len_app, Hi2.
   assert (Hr2 : r_off r2 = off) by lia. rewrite Hr2.
   rewrite (dropZ_all off) by lia. rewrite len_nil.
   cbn [Pos.eqb r_off snd]. replace (off + 0) with off by lia. reflexivity.
